@@ -97,9 +97,18 @@ def ode_terms_of_event(sy, p):
 
 def state_decl(defn, form, rng=None):
     sy = defn.sy
-    if defn.decl.get("range"):
-        base = ["y1:%d" % (sy.ns + 1)]
-        return base
+    rg = defn.decl.get("range")
+    if rg is True:
+        return ["y1:%d" % (sy.ns + 1)]
+    if rg:
+        # the first rg states as one range-style entry, the others by name (with their limits)
+        ident = "y1:%d" % (rg + 1)
+        if defn.decl.get("range_odevar"):
+            from pygom.model.ode_variable import ODEVariable
+            ident = ODEVariable(ident, "stage")
+        lim = defn.decl.get("range_lim")
+        first = [(ident, tuple(lim))] if lim is not None else [ident]
+        return first + [(s, tuple(l)) for s, l in zip(sy.states[rg:], defn.lims[rg:])]
     if form == "space":
         return " ".join(sy.states)
     if form == "comma":
